@@ -2,3 +2,180 @@
 #include "mpi_interp.hpp"
 
 using namespace mpii;
+
+static constexpr long CANARY = -777777;
+
+static json type_info(MPI_Datatype t)
+{
+  json o;
+  int size = static_cast<int>(CANARY);
+  MPI_Aint lb = CANARY, extent = CANARY, tlb = CANARY, textent = CANARY;
+  o["size_rc"]   = MPI_Type_size(t, &size);
+  o["extent_rc"] = MPI_Type_get_extent(t, &lb, &extent);
+  o["true_rc"]   = MPI_Type_get_true_extent(t, &tlb, &textent);
+  o["size"]      = size;
+  o["lb"]        = lb;
+  o["extent"]    = extent;
+  o["true_lb"]   = tlb;
+  o["true_extent"] = textent;
+  return o;
+}
+
+/* {"op":"type_info","type":t} -> size, lb, extent, true_lb, true_extent (+ return codes) */
+MPI_OPERATION(type_info)
+{
+  o.update(type_info(R.type(a)));
+  o["rc"] = o["size_rc"];
+}
+
+/* {"op":"predefined_types"} -> "types": {name: {size, extent, ...}} for every predefined datatype name of the interpreter */
+MPI_OPERATION(predefined_types)
+{
+  json all = json::object();
+  for (auto const& [name, t] : R.types) {
+    if (t == MPI_DATATYPE_NULL)
+      all[name] = nullptr;
+    else
+      all[name] = type_info(t);
+  }
+  o["types"] = all;
+  o["rc"]    = 0;
+}
+
+static std::vector<MPI_Aint> aints(const json& a, const char* key)
+{
+  std::vector<MPI_Aint> v;
+  if (a.contains(key))
+    for (auto const& x : a.at(key))
+      v.push_back(x.get<MPI_Aint>());
+  return v;
+}
+
+/* {"op":"type_create","kind":K,"out":name,"commit":bool?, ...}  ->  rc, then type_info fields (when rc == 0)
+ *   contiguous: count, old           vector: count, blocklen, stride, old        hvector: count, blocklen, stride(bytes), old
+ *   indexed: blocklens[], disps[], old     hindexed: blocklens[], disps[](bytes), old
+ *   indexed_block: blocklen, disps[], old  hindexed_block: blocklen, disps[](bytes), old
+ *   struct: blocklens[], disps[](bytes), olds[]       resized: lb, extent, old       dup: old
+ *   subarray: sizes[], subsizes[], starts[], order ("C"|"F"), old */
+MPI_OPERATION(type_create)
+{
+  std::string kind = a.at("kind").get<std::string>();
+  MPI_Datatype nt  = MPI_DATATYPE_NULL;
+  int rc;
+  if (kind == "contiguous")
+    rc = MPI_Type_contiguous(a.at("count").get<int>(), R.type(a, "old"), &nt);
+  else if (kind == "vector")
+    rc = MPI_Type_vector(a.at("count").get<int>(), a.at("blocklen").get<int>(), a.at("stride").get<int>(), R.type(a, "old"), &nt);
+  else if (kind == "hvector")
+    rc = MPI_Type_create_hvector(a.at("count").get<int>(), a.at("blocklen").get<int>(), a.at("stride").get<MPI_Aint>(),
+                                 R.type(a, "old"), &nt);
+  else if (kind == "indexed") {
+    auto bl = ints(a, "blocklens");
+    auto d  = ints(a, "disps");
+    if (bl.size() != d.size())
+      throw BadCase("blocklens/disps sizes differ");
+    rc = MPI_Type_indexed(static_cast<int>(bl.size()), ptr(bl), ptr(d), R.type(a, "old"), &nt);
+  } else if (kind == "hindexed") {
+    auto bl = ints(a, "blocklens");
+    auto d  = aints(a, "disps");
+    if (bl.size() != d.size())
+      throw BadCase("blocklens/disps sizes differ");
+    rc = MPI_Type_create_hindexed(static_cast<int>(bl.size()), ptr(bl), ptr(d), R.type(a, "old"), &nt);
+  } else if (kind == "indexed_block") {
+    auto d = ints(a, "disps");
+    rc     = MPI_Type_create_indexed_block(static_cast<int>(d.size()), a.at("blocklen").get<int>(), ptr(d), R.type(a, "old"), &nt);
+  } else if (kind == "hindexed_block") {
+    auto d = aints(a, "disps");
+    rc = MPI_Type_create_hindexed_block(static_cast<int>(d.size()), a.at("blocklen").get<int>(), ptr(d), R.type(a, "old"), &nt);
+  } else if (kind == "struct") {
+    auto bl = ints(a, "blocklens");
+    auto d  = aints(a, "disps");
+    std::vector<MPI_Datatype> olds;
+    for (auto const& n : a.at("olds"))
+      olds.push_back(Rank::find(R.types, n.get<std::string>(), "type"));
+    if (bl.size() != d.size() || bl.size() != olds.size())
+      throw BadCase("struct array sizes differ");
+    rc = MPI_Type_create_struct(static_cast<int>(bl.size()), ptr(bl), ptr(d), ptr(olds), &nt);
+  } else if (kind == "resized")
+    rc = MPI_Type_create_resized(R.type(a, "old"), a.at("lb").get<MPI_Aint>(), a.at("extent").get<MPI_Aint>(), &nt);
+  else if (kind == "dup")
+    rc = MPI_Type_dup(R.type(a, "old"), &nt);
+  else if (kind == "subarray") {
+    auto sizes = ints(a, "sizes"), subsizes = ints(a, "subsizes"), starts = ints(a, "starts");
+    if (sizes.size() != subsizes.size() || sizes.size() != starts.size())
+      throw BadCase("subarray array sizes differ");
+    rc = MPI_Type_create_subarray(static_cast<int>(sizes.size()), ptr(sizes), ptr(subsizes), ptr(starts),
+                                  a.value("order", std::string("C")) == "F" ? MPI_ORDER_FORTRAN : MPI_ORDER_C, R.type(a, "old"), &nt);
+  } else
+    throw BadCase("unknown type constructor '" + kind + "'");
+  o["rc"]   = rc;
+  o["null"] = nt == MPI_DATATYPE_NULL;
+  R.types[a.at("out").get<std::string>()] = nt;
+  if (rc == MPI_SUCCESS && nt != MPI_DATATYPE_NULL) {
+    if (a.value("commit", true))
+      o["commit_rc"] = MPI_Type_commit(&R.types[a.at("out").get<std::string>()]);
+    o.update(type_info(R.types[a.at("out").get<std::string>()]));
+  }
+}
+
+MPI_OPERATION(type_commit)
+{
+  MPI_Datatype& t = Rank::find(R.types, a.at("type").get<std::string>(), "type");
+  o["rc"]         = MPI_Type_commit(&t);
+}
+
+MPI_OPERATION(type_free)
+{
+  MPI_Datatype& t = Rank::find(R.types, a.at("type").get<std::string>(), "type");
+  o["rc"]         = MPI_Type_free(&t);
+  o["null_after"] = t == MPI_DATATYPE_NULL;
+}
+
+/* {"op":"pack_size","count":n,"type":t,"comm"?} -> size */
+MPI_OPERATION(pack_size)
+{
+  int size  = static_cast<int>(CANARY);
+  o["rc"]   = MPI_Pack_size(a.at("count").get<int>(), R.type(a), R.comm(a), &size);
+  o["size"] = size;
+}
+
+static unsigned char* buf_at(Rank& R, const json& a, const char* key, const char* offkey, size_t* avail)
+{
+  auto& b    = R.buf(a, key);
+  size_t sz  = b.size() - 2 * BUF_GUARD;
+  size_t off = a.value(offkey, 0);
+  if (off > sz)
+    throw BadCase("offset outside the buffer");
+  *avail = sz - off;
+  return b.data() + BUF_GUARD + off;
+}
+
+/* {"op":"pack","in":buf,"inoff"?,"count":n,"type":t,"out":buf,"outsize":bytes?,"position":p,"comm"?} -> rc, position after */
+MPI_OPERATION(pack)
+{
+  size_t ain = 0, aout = 0;
+  unsigned char* in  = buf_at(R, a, "in", "inoff", &ain);
+  unsigned char* out = buf_at(R, a, "out", "outoff", &aout);
+  int outsize        = a.value("outsize", static_cast<int>(aout));
+  if (static_cast<size_t>(outsize) > aout)
+    throw BadCase("outsize larger than the buffer");
+  int pos   = a.at("position").get<int>();
+  o["rc"]   = MPI_Pack(in, a.at("count").get<int>(), R.type(a), out, outsize, &pos, R.comm(a));
+  o["position"] = pos;
+}
+
+/* {"op":"unpack","in":buf,"insize":bytes?,"position":p,"out":buf,"outoff"?,"count":n,"type":t,"comm"?} -> rc, position after */
+MPI_OPERATION(unpack)
+{
+  size_t ain = 0, aout = 0;
+  unsigned char* in  = buf_at(R, a, "in", "inoff", &ain);
+  unsigned char* out = buf_at(R, a, "out", "outoff", &aout);
+  int insize         = a.value("insize", static_cast<int>(ain));
+  if (static_cast<size_t>(insize) > ain)
+    throw BadCase("insize larger than the buffer");
+  int pos   = a.at("position").get<int>();
+  o["rc"]   = MPI_Unpack(in, insize, &pos, out, a.at("count").get<int>(), R.type(a), R.comm(a));
+  o["position"] = pos;
+}
+
+/* {"op":"get_elements","count","type"}: not needed yet */
